@@ -1,4 +1,5 @@
 import Iavl.Model.Codec
+import Iavl.Model.RootRecords
 import Iavl.Model.VMachine
 import Iavl.Model.Proof
 import Iavl.Generated.Facts
@@ -93,6 +94,26 @@ def resolveRoot (d : KVPairs) (version : Nat) : RootRes :=
       else .bad s!"invalid reference root of version {version}"
     else .node version 1
 
+/-- the image read as a store of the root-record machine (Model/RootRecords.lean) -/
+def rootsStore (d : KVPairs) : Roots.Store := fun k =>
+  match lookupKV d (physKey k.1 k.2) with
+  | none => none
+  | some val =>
+    if k.2 = 1 ∧ val = [] then some .empty
+    else if val.head? == some nodePfx && val.length == Facts.nodeKeyLength then
+      some (.ref (be ((val.drop 1).take 8), be (val.drop 9)))
+    else if val.head? == some nodePfx && val.length == Facts.nodeKeyPrefixLength then some (.ref (be (val.drop 1), 1))
+    else some (.node (k.1, if k.2 = 0 then 1 else k.2))
+
+/-- the abstract `GetRoot` of the root-record machine and the byte-level one agree on this image -/
+def rootsAgree (d : KVPairs) (v : Nat) : Bool :=
+  match Roots.getRoot (rootsStore d) v, resolveRoot d v with
+  | .notExist, .missing => true
+  | .notExist, .bad _ => true
+  | .emptyTree, .empty => true
+  | .at k, .node ver nonce => k == (ver, nonce)
+  | _, _ => false
+
 def fastEntries (d : KVPairs) : Option (List (Bytes × Nat × Bytes)) :=
   (d.filter (fun p => p.1.head? == some fastPfx)).mapM fun p =>
     match takeVarint p.2 with
@@ -109,6 +130,12 @@ def labelOf (d : KVPairs) : Option String :=
 /-- the audit. `fastOpen` = the tree was opened with the fast index enabled in this session. -/
 def auditDump (H : Bytes → Bytes) (vs : List (Nat × OTree Bytes Bytes)) (fastOpen : Bool) (d : KVPairs) : String :=
   let latest := latestVer vs
+  -- 0. the root-record machine (C12 `root_records_right_in_every_history`) read on this image: its `GetRoot` agrees with
+  --    the byte-level resolution below, and its `hasVersion` holds exactly for the retained versions
+  match (List.range (latest + 2)).find? (fun v =>
+      !rootsAgree d v || (Roots.hasVersion (rootsStore d) v != (findVer vs v).isSome)) with
+  | some v => s!"the root-record machine disagrees with the store at version {v}"
+  | none =>
   -- 1. every retained version decodes to the reference tree
   let step (acc : Except String (List Bytes)) (p : Nat × OTree Bytes Bytes) : Except String (List Bytes) :=
     match acc with
